@@ -209,6 +209,14 @@ let () =
                let bad = List.filter (fun e -> not (nfvs_entry_ok_b !net e)) lg in
                let (d1, r) = expand_aseeds !fuel !net !cfg !cur (opt_nat (a 1)) (spaces_of_string (a 2)) nt in
                cur := d1; Printf.sprintf "result=%s;tape=%d/%d %s" (str_result r) (List.length lg) (List.length bad) (dump d1)
+           | "scc" ->
+               (* scc MAA TAPE : tape chars 1 = no candidates, 0 = candidates, r = the query raised *)
+               let tape = if a 2 = "-" then [] else List.init (String.length (a 2)) (fun i -> match (a 2).[i] with '1' -> Some true | '0' -> Some false | _ -> None) in
+               let (d1, r) = expand_scc !fuel !net !cfg !cur (a 1 = "1") tape in
+               cur := d1; "result=" ^ str_result r ^ " " ^ dump d1
+           | "sccs" -> (* source SCCs of a space *)
+               let l = source_sccs !net (space_of_string (a 1)) in
+               if l = [] then "-" else String.concat ";" (List.map str_nats l)
            | "block" ->
                (* block MAA OPTSRC SIZE TAPE(bits) *)
                let tape = if a 4 = "-" then [] else List.init (String.length (a 4)) (fun i -> (a 4).[i] = '1') in
